@@ -63,8 +63,11 @@ def main(argv):
     workdir = os.path.join(VERIF, '.work', pid)
     os.makedirs(workdir, exist_ok=True)
     results = []
+    only = os.environ.get('VERIF_ONLY_PARTS')   # development aid: run only the parts whose name starts with this
     for part in prop['parts']:
         if tier == 'quick' and part.get('tier') == 'thorough':
+            continue
+        if only and not part['name'].startswith(only):
             continue
         r = part['run'](part, tier, workdir, seed)
         r['part'] = part['name']
